@@ -80,6 +80,7 @@ def worker_main(pid, tier, seed, w, nw, outpath, only=None):
         n = prop.n_cases(tier)
         idxs = [only] if only is not None else range(w, n, nw)
         sigs = set()
+        seen_cls = {}
         for i in idxs:
             rng = case_rng(pid, seed, tier, i)
             try:
@@ -103,6 +104,12 @@ def worker_main(pid, tier, seed, w, nw, outpath, only=None):
             for v in res.violations:
                 v = dict(v)
                 v["index"] = i
+                # every violation is counted; the full witness is kept for the first two of a class per worker (the driver
+                # writes the replay file from the lowest case index of a class, which is some worker's first)
+                seen_cls[v["cls"]] = seen_cls.get(v["cls"], 0) + 1
+                if seen_cls[v["cls"]] > 2:
+                    v["witness"] = None
+                    v["detail"] = str(v.get("detail"))[:200]
                 report["violations"].append(v)
             if res.sample is not None and len(report["samples"]) < 2:
                 report["samples"].append(res.sample)
@@ -146,6 +153,12 @@ def trim(obj, limit=1500):
     return obj
 
 
+def _cap_file_size():
+    # no file a worker (or a process it starts) writes may grow beyond 1 GiB: the disk is not to be filled by a runaway
+    import resource
+    resource.setrlimit(resource.RLIMIT_FSIZE, (1 << 30, 1 << 30))
+
+
 def drive(pid, tier, seed, workers=None):
     t0 = time.time()
     prop = load_prop(pid)
@@ -167,22 +180,32 @@ def drive(pid, tier, seed, workers=None):
             # the last worker runs its share of the cases the way `python -O` does (assert statements compiled away): code that
             # relies on an assert for something it must do shows there
             wenv = dict(env, PYTHONOPTIMIZE="2" if seed % 2 == 0 else "1")      # -OO on even seeds: docstrings are gone too
-        p = subprocess.Popen([PY, "-m", "vf.core", "--worker", pid, tier, str(seed), str(w), str(nw), out],
-                             cwd=VERIF, env=wenv, stdout=subprocess.PIPE, stderr=subprocess.STDOUT)
+        # (what a worker prints goes to a file, not to a pipe the driver would have to hold in memory: a case that makes the
+        #  code under test print without end must end in the watchdog, not in the driver's memory)
+        with open(out + ".log", "wb") as lf:
+            p = subprocess.Popen([PY, "-m", "vf.core", "--worker", pid, tier, str(seed), str(w), str(nw), out],
+                                 cwd=VERIF, env=wenv, stdout=lf, stderr=subprocess.STDOUT, preexec_fn=_cap_file_size)
         procs.append((p, out))
     watchdog = prop.watchdog_s(tier)
     reports, inconclusive = [], []
     deadline = time.time() + watchdog
     for p, out in procs:
         try:
-            o, _ = p.communicate(timeout=max(1, deadline - time.time()))
+            p.wait(timeout=max(1, deadline - time.time()))
         except subprocess.TimeoutExpired:
             p.kill()
-            p.communicate()
+            p.wait()
             inconclusive.append("worker-watchdog")
             continue
         if p.returncode != 0 or not os.path.exists(out):
-            inconclusive.append("worker-died:" + (o or b"").decode(errors="replace")[-800:])
+            o = b""
+            try:
+                with open(out + ".log", "rb") as lf:
+                    lf.seek(max(0, os.path.getsize(out + ".log") - 800))
+                    o = lf.read()
+            except OSError:
+                pass
+            inconclusive.append("worker-died:" + o.decode(errors="replace")[-800:])
             continue
         with open(out) as f:
             reports.append(json.load(f))
